@@ -2,6 +2,7 @@ package chainsim
 
 import (
 	"testing"
+	"testing/cryptotest"
 
 	"verifsim/core"
 )
@@ -11,7 +12,13 @@ func TestWorker(t *testing.T) {
 	core.WorkerMain(t, core.Engine{
 		Name: "chainsim",
 		Run: func(o core.RunOpts) *core.RunResult {
-			return RunOne(o)
+			var res *core.RunResult
+			o.T.Run("run", func(t *testing.T) {
+				// pkg/tss draws key material and nonces from crypto/rand: make it a function of the seed
+				cryptotest.SetGlobalRandom(t, o.Seed)
+				res = RunOne(o)
+			})
+			return res
 		},
 	})
 }
